@@ -495,6 +495,22 @@ func checkCase(c Case) error {
 			if err := afterRemoval(o, "Remove while registrations were queued"); err != nil {
 				return err
 			}
+			// the connections whose registrations raced with the removal are
+			// still served: a call to the object which is gone is answered (with
+			// an error), and the main object answers them
+			for k, x := range late {
+				f, ok := x.CallWait(svc.ServiceID(), o.id, 100, netkit.StringPayload("late"), bound)
+				if !ok {
+					return vt.Violationf("C16:removed-object-call-unanswered", "step %d: connection %d, which was registering for a signal of object %d when it was removed, gets no answer to a call addressed to it", i, k, o.id)
+				}
+				if f.Type == netkit.Reply {
+					return vt.Violationf("C16:removed-object-answers", "step %d: removed object %d answered a call", i, o.id)
+				}
+				// (the main object lives until the script is over)
+				if f, ok := x.CallWait(svc.ServiceID(), 1, 100, netkit.StringPayload("late-main"), bound); !ok || f.Type != netkit.Reply {
+					return vt.Violationf("C16:other-object-affected", "step %d: connection %d, which was registering for a signal of object %d when it was removed, is no longer served by the main object of the service: %v", i, k, o.id, f)
+				}
+			}
 			vt.Label("subrace-step")
 		case "busyremove":
 			if o == nil || !o.live {
